@@ -1,8 +1,8 @@
 (* C15, program level, programs WITH type parameters and type arguments: check (the code as it is,
    and the code before fix d524b1f) accepts only programs that satisfy the declarative rules -
    provided the types written inside data/codata declarations are well-formed ([decl_types_wf],
-   the complement of known finding C15-lazy-declaration-types: the checker tests them by head name
-   only) and all type / constructor / destructor names are identifier-like ([prog_names_ok]; true of
+   the complement of the former finding C15-lazy-declaration-types; since fix <commit15> the checker
+   establishes it, Proof/CheckDecls.v, and Proof/CheckFixed.v drops the hypothesis) and all type / constructor / destructor names are identifier-like ([prog_names_ok]; true of
    every parsed program). *)
 From Coq Require Import List ZArith String Bool Permutation Lia.
 From SCC Require Import Base.Sexp Lang.SynUtil Lang.FunSyn Model.Check Sem.FunTyping
